@@ -199,7 +199,7 @@ func runRaw(c RawCase, ctx *hx.Ctx) *hx.Failure {
 	return nil
 }
 
-func TestPropRawRoundTrip(t *testing.T) { hx.Check(t, 8000, genRaw, runRaw) }
+func TestPropRawRoundTrip(t *testing.T) { hx.Check(t, 16000, genRaw, runRaw) }
 
 // all lengths 13..65535 (thorough), boundary set (quick)
 func TestAllLengths(t *testing.T) {
@@ -348,7 +348,7 @@ func sizeBucket(n int) string {
 	}
 }
 
-func TestPropMsgRoundTrip(t *testing.T) { hx.Check(t, 2000, genMsgCase, runMsg) }
+func TestPropMsgRoundTrip(t *testing.T) { hx.Check(t, 4000, genMsgCase, runMsg) }
 
 // ---------------------------------------------------------------- (iii) arbitrary streams vs independent framer
 
@@ -453,7 +453,7 @@ func runStream(c StreamCase, ctx *hx.Ctx) *hx.Failure {
 	return nil
 }
 
-func TestPropArbitraryStream(t *testing.T) { hx.Check(t, 8000, genStream, runStream) }
+func TestPropArbitraryStream(t *testing.T) { hx.Check(t, 16000, genStream, runStream) }
 
 func FuzzReadRaw(f *testing.F) {
 	f.Add([]byte{0, 13, 1, 2, 3, 4, 5, 6, 7, 8, 9, 10, 11, 12, 13}, byte(1))
@@ -848,7 +848,7 @@ func compareFrames(h *gateHandler, frames [][]byte, c SrvCase) *hx.Failure {
 	return nil
 }
 
-func TestPropServerConcurrentReplies(t *testing.T) { hx.Check(t, 300, genSrv, runSrv) }
+func TestPropServerConcurrentReplies(t *testing.T) { hx.Check(t, 600, genSrv, runSrv) }
 
 // ---------------------------------------------------------------- replays
 
